@@ -19,9 +19,9 @@ use yash_env::system::{
     Chdir, Close, Dir as _, Dup, Errno, Fcntl, FdFlag, Fstat, GetCwd, Mode, OfdAccess, Open, OpenFlag, Read, Seek, Stat as _, Umask, Write,
 };
 
-pub const PATHS: [&str; 21] = [
+pub const PATHS: [&str; 23] = [
     "f1", "f2", "e1", "d", "d/a.txt", "d/sub", "d/sub/deep.txt", "d/new", "nodir/f", "e1/x", ".", "..", "d/..", "d/./sub/../a.txt", "", "empty", "e1/.", "e1/",
-    "d//a.txt", "./f1", "d/sub/.",
+    "d//a.txt", "./f1", "d/sub/.", "x.sh", "d/x2",
 ];
 
 #[derive(Clone, Debug, Serialize, Deserialize, PartialEq)]
@@ -49,6 +49,7 @@ pub enum SOp {
     Getcwd,
     ListDir(u8),
     IsDir(u8),
+    IsExec(u8),
     Tmpfile,
     /// a pipe, both ends switched to non-blocking mode at once (two slots)
     Pipe,
@@ -135,7 +136,8 @@ pub fn generate(rng: &mut Rng, long: bool) -> SHist {
                 }
             }
             27 => SOp::ListDir(path(rng)),
-            28 => SOp::IsDir(path(rng)),
+            28 if rng.bool() => SOp::IsDir(path(rng)),
+            28 => SOp::IsExec(path(rng)),
             29 if rng.bool() => SOp::Pipe,
             29 => SOp::Limit(*rng.pick(&[3u8, 4, 5, 6, 8, 12])),
             _ => SOp::Tmpfile,
@@ -173,6 +175,7 @@ where
         + GetCwd
         + Chdir
         + yash_env::system::Pipe
+        + yash_env::system::IsExecutableFile
         + yash_env::system::resource::GetRlimit
         + yash_env::system::resource::SetRlimit,
 {
@@ -380,6 +383,10 @@ where
                 format!("isdir: {}", sys.is_directory(&path))
             }
             SOp::BigWrite(_) => "bigwrite: -".into(),
+            SOp::IsExec(p) => {
+                let path = CString::new(PATHS[*p as usize]).unwrap();
+                format!("isexec: {}", sys.is_executable_file(&path))
+            }
             SOp::Limit(n) => {
                 use yash_env::system::resource::{LimitPair, Resource};
                 match sys.getrlimit(Resource::NOFILE) {
@@ -433,6 +440,8 @@ pub fn initial_tree() -> Vec<(&'static str, Option<&'static [u8]>, u32)> {
         ("d/sub", None, 0o755),
         ("d/sub/deep.txt", Some(b"deep\n"), 0o600),
         ("empty", None, 0o755),
+        ("x.sh", Some(b"echo x\n"), 0o755),
+        ("d/x2", Some(b"echo x2\n"), 0o710),
     ]
 }
 
